@@ -74,6 +74,7 @@ func (f *File) Apply(filename string, src []byte) (_ []byte, err error) {
 
 		snap = snap.Diff(fout, cl)
 		fout.Comments = cleanupFilePos(f.fset.File(fout.Pos()), cl, fout.Comments)
+		engine.DetachEmptyComments(fout)
 	}
 
 	if retErr != nil {
